@@ -460,6 +460,20 @@ def bounded(ctx):
                     fails.add(prob.sig, prob.what, {"multiline": True, "seq": seq})
         ctx.done(exhaustive=True, note=fails.note())
 
+        # ---- 5b. multi-line format on a plain output
+        ctx.check("multiline_plain", "the same two-line format on an output without ANSI support: all sequences up to length 3 over "
+                                     "{start, advance(1), display, clear, finish, set_message}; no control character ever reaches "
+                                     "the stream and the line written before the bar stays the first line")
+        fails = _Failures(ctx)
+        for L in (1, 2, 3):
+            for idx in _sequences(alphabet, L):
+                seq = [[0] + list(alphabet[i]) for i in idx]
+                prob = run_multiline_plain(seq, clock)
+                ctx.case(seq, nontrivial=L >= 2, sample=" ".join(s[1] for s in seq))
+                if prob is not None:
+                    fails.add(prob.sig, prob.what, {"multiline": True, "plain": True, "seq": seq})
+        ctx.done(exhaustive=True, note=fails.note())
+
         # ---- 6. multi-line format on a section output
         ctx.check("multiline_section", "the same two-line format on a section output below another section (terminal 120 columns): "
                                        "all sequences up to length 3 over {start, advance(1), display, clear, finish, set_message}; "
@@ -473,6 +487,45 @@ def bounded(ctx):
                 if prob is not None:
                     fails.add("section-" + prob.sig, prob.what, {"multiline": True, "section": True, "seq": seq})
         ctx.done(exhaustive=True, note=fails.note())
+
+
+def run_multiline_plain(seq, clock):
+    """two-line frames on an output without ANSI support: frames are appended, never a control code"""
+    from clikit.io import BufferedIO
+    from clikit.ui.components import ProgressBar
+
+    clock.ms = 0
+    io = BufferedIO(formatter=_formatter(False))
+    io.error_output.write_line("HEADER")
+    bar = ProgressBar(io, 10, 0)
+    bar.set_bar_width(5)
+    bar.set_format("%message%\n%current%/%max% [%bar%]")
+    mi = 0
+    bar.set_message(MESSAGES[0])
+    for item in seq:
+        name = item[1]
+        try:
+            if name == "start":
+                bar.start()
+            elif name == "advance":
+                bar.advance(item[2])
+            elif name == "display":
+                bar.display()
+            elif name == "clear":
+                bar.clear()
+            elif name == "finish":
+                bar.finish()
+            elif name == "msg":
+                mi = (mi + 1) % len(MESSAGES)
+                bar.set_message(MESSAGES[mi])
+        except Exception as e:
+            return Problem("multiline-plain|raises", "%s raised %r" % (name, e))
+        text = io.fetch_error()
+        if "\x1b" in text or "\r" in text:
+            return Problem("multiline-plain|control-code", "after %s the plain output holds a control character: %r" % (name, text[-80:]))
+        if not text.startswith("HEADER\n"):
+            return Problem("multiline-plain|line-above-lost", "after %s the output starts with %r" % (name, text[:20]))
+    return None
 
 
 def run_multiline(seq, clock, section=False):
@@ -533,7 +586,9 @@ def run_multiline(seq, clock, section=False):
 def replay_bounded(check_id, failure):
     w = failure.get("witness") or {}
     with _Env() as clock:
-        if w.get("multiline"):
+        if w.get("multiline") and w.get("plain"):
+            prob = run_multiline_plain(w["seq"], clock)
+        elif w.get("multiline"):
             prob = run_multiline(w["seq"], clock, section=bool(w.get("section")))
         else:
             probs, _ = run_sequence(w["cfg"], w["seq"], clock)
